@@ -135,13 +135,15 @@ PROPS = {
     },
     "C12": {
         "rule": "one settling thread and 1..2 attaching threads on a promise family of 8 shapes (root, derived by value/void/promise-returning "
-                "continuations, chain of two, void root), fulfil or reject, derived promise pre-built or built by the attacher; interleavings at the "
+                "continuations, chain of two, void root), fulfil or reject, derived promise pre-built or built by the attacher; and two settling threads "
+                "feeding whenAll/whenAny while a third attaches to (or builds) the combinator; interleavings at the "
                 "yield points of async.h and at every lock operation; " + NONTRIVIAL,
         "probes_expected": ["shape-root", "shape-derived-value", "shape-derived-void", "shape-derived-resolved-promise", "shape-derived-pending-promise",
-                            "shape-derived-chain2", "shape-void-root", "shape-void-derived", "settle-reject", "attacher-builds-chain"],
+                            "shape-derived-chain2", "shape-void-root", "shape-void-derived", "settle-reject", "attacher-builds-chain",
+                            "combinator-all", "combinator-any", "combinator-with-rejection"],
         "assumptions": ["the promise derived from a continuation that returns nothing is never fulfilled by design; only at-most-once is demanded for continuations attached to it"],
-        "quick": {"batches": [("c12_settle_attach", "plain", 150000), ("c12_settle_attach", "tsan", 15000)], "chunk": 2000},
-        "thorough": {"batches": [("c12_settle_attach", "plain", 1500000), ("c12_settle_attach", "tsan", 150000)], "chunk": 5000},
+        "quick": {"batches": [("c12_settle_attach", "plain", 150000), ("c12_settle_attach", "tsan", 15000), ("c12_combinators", "plain", 60000), ("c12_combinators", "tsan", 8000)], "chunk": 2000},
+        "thorough": {"batches": [("c12_settle_attach", "plain", 1500000), ("c12_settle_attach", "tsan", 150000), ("c12_combinators", "plain", 600000), ("c12_combinators", "tsan", 80000)], "chunk": 5000},
     },
     "C13": {
         "rule": "plans (1..4 producers x 1..5 pushes, start delays, gaps, prefill, pollable or plain queue) and schedules "
